@@ -164,12 +164,13 @@ def doRestoreText (s : DState) (t : List Byte) (dump : Bool := false) : DState :
   | .stuck => s.emit "stuck model"
 
 def doRoundtrip (s : DState) (v : V) : DState :=
-  match saveVariable FloatIO v with
+  match saveVariableEfun FloatIO v with
   | .ok t =>
     let s := s.emit ("save " ++ hexOf (save FloatIO (canonOrder v)))
     doRestoreText s t
   | .tooDeep =>
     (s.emit s!"err Mappings and/or arrays nested too deep ({maxDepth}) for save_object").emit "saveerr"
+  | .tooLong => (s.emit ("err " ++ NV.Gen.C16.saveVariableLimitMessage)).emit "saveerr"
   | .crash => s.emit "crash model"
 
 /-- canonical print of the save file (every value with sorted mapping entries) -/
